@@ -208,6 +208,7 @@ pub fn pool(full: bool) -> Vec<V> {
         V::s("abc def"),
         V::s("é👍e\u{301}"),
         V::s("10"),
+        V::s("0"),
         V::s("%é"),
         V::Arr(vec![V::Int(1), V::s("a"), V::Nil]),
         V::Arr(mixed_array(25)),
